@@ -221,7 +221,7 @@ def topdown(c, pm, S):
     flt = isinstance(pm[1][0][1], float)
     if not flt:
         h = [Fraction(x) for x in h]; H = sum(h); p = Fraction(p)
-    memo = {}
+    memo = {}; S = [None] + list(S)
     def go(j, ip):
         key = (j, ip)
         if key in memo: return memo[key]
@@ -272,7 +272,7 @@ def oracle(chk, c, r, rng, budget=1.0):
         bad.append((sig, 'optimise -> S*=%r C*=%r, but evaluating S* gives %r' % (raw, Cstar, e[1:3] if e[0] == 'ok' else e)))
     if kind == 'N':
         return bad + oracle_normal(c, r)
-    tolc = 1e-9 if kind != 'P' else 1e-3
+    tolc = 1e-9 if kind != 'P' else max(1e-3, 20 * max((c['tails'] or {'x': 0}).values()))      # documented tail-truncation error
     pmx = ltd_pmfs(c)                                   # exact rationals for UD / CD, floats for Poisson
     pmf_ = ltd_pmfs(c, as_float=True)
     # (c1) reported optimum = exact expected cost of the returned levels
@@ -280,7 +280,6 @@ def oracle(chk, c, r, rng, budget=1.0):
     if not rel_close(tc, Cstar, tolc):
         bad.append(('optimize_base_stock_levels|reported-cost-not-cost-of-levels', 'C*=%r but the exact expected cost of S*=%r is %r' % (Cstar, lv, float(tc))))
     # (c2) cost reported for other level vectors (evaluation mode / expected_cost) = their exact expected cost
-    tb_lo = min(d for d, _ in pmf_[1]); span = max(lv.values()) + 3
     for k in range(2):
         Sr = {j: max(1, lv[j] + rng.randint(-4, 4)) for j in lv}
         tcr = topdown(c, pmf_, [Sr[j] for j in range(1, N + 1)])
@@ -293,7 +292,7 @@ def oracle(chk, c, r, rng, budget=1.0):
             except Exception as ex: val = None; e = ('err', exc_kind(ex), str(ex)[:200])
             call = 'expected_cost'
         if val is None or not rel_close(val, tcr, max(tolc, 1e-9)):
-            sig = SIG_EVAL_ORDER if (not default_numbering and val is not None and k == 0 and False) else '%s|cost-of-given-levels-not-exact' % call.split('(')[0]
+            sig = '%s|cost-of-given-levels-not-exact' % call.split('(')[0]
             bad.append((sig, '%s for levels %r returns %r, exact expected cost is %r' % (call, Sr, val if val is not None else e, tcr)))
     # (c3) optimality: neighbourhood of S* (all vectors within +-2) and a coarse global grid
     tol_opt = tolc * max(1.0, abs(Cstar))
@@ -417,7 +416,7 @@ def explore(chk, n, nmax, do_model=True, n_normal=0, n_malformed=0):
             tb = tables(c)
             exprs.append(model_expr(c, tb)); slots.append((i, 'opt', tb, None))
             if i % 3 == 0:
-                Sr = {j: r[1][j] + rng.randint(-3, 3) for j in r[1]}
+                Sr = {j: max(0, r[1][j] + rng.randint(-3, 3)) for j in r[1]}
                 tb2 = tables(c, S_max=max(Sr.values()))
                 exprs.append(model_expr(c, tb2, S_by_stage=Sr)); slots.append((i, 'eval', tb2, Sr))
         vals = coq_eval_sharded('c07', 'Alg.SSM', '', exprs, shard=6, jobs=8)
@@ -492,7 +491,7 @@ def run(chk):
     chk.extra.setdefault('near_tie_skipped', 0)
     chk.proof()
     if chk.tier == 'quick':
-        explore(chk, 54, 3, n_normal=4, n_malformed=6)
+        explore(chk, 150, 3, n_normal=8, n_malformed=10)
     else:
         explore(chk, 700, 4, n_normal=30, n_malformed=40)
     if (chk.broken or chk.mismatches) and not chk.fails:
